@@ -122,6 +122,9 @@ impl<'a> MslV<'a> {
     /// result type of a component-wise binary operator (before the comparison → bool step)
     fn op_type(&self, m: MBin, ta: &MTy, tb: &MTy) -> Option<MTy> {
         let (a, b) = (self.arith(ta)?, self.arith(tb)?);
+        if m == MBin::Mod && !self.hlsl_literals && (a.scalar() == Some(MS::Float) || b.scalar() == Some(MS::Float)) && !self.in_fmod.get() {
+            return stuck(Stuck::Class(C_FLOAT_REM), format!("operator % on {} and {}: Metal has no remainder operator for floating-point operands", a.show(), b.show()));
+        }
         let shift = matches!(m, MBin::Shl | MBin::Shr) && !self.hlsl_literals;
         match (&a, &b) {
             (MTy::S(x), MTy::S(y)) => {
@@ -300,7 +303,10 @@ impl<'a> MslV<'a> {
 
     fn lib_type(&self, lib: &str, tys: &[MTy]) -> Option<MTy> {
         if lib == "fmod" && !self.fmod_is_builtin {
-            return self.op_type(MBin::Mod, tys.first()?, tys.get(1)?);
+            self.in_fmod.set(true);
+            let r = self.op_type(MBin::Mod, tys.first()?, tys.get(1)?);
+            self.in_fmod.set(false);
+            return r;
         }
         if lib == "true_type" {
             return Some(MTy::Tag);
